@@ -2,7 +2,8 @@
    (Model/Base.v), for every element type A, every shape with non-empty index space,
    every mode. *)
 From Coq Require Import List Arith Permutation.
-From TLV Require Import Base.Shape Base.PyList Base.Tensor Model.Base Proofs.BaseProofs.
+From Coq Require Import Sorted.
+From TLV Require Import Base.Shape Base.PyList Base.Tensor Model.Base Proofs.BaseProofs Proofs.BaseProofs2.
 Import ListNotations.
 
 Theorem C01_fold_unfold : forall (A : Type) (d : A) (t : tensor A) (m : nat),
@@ -38,6 +39,66 @@ Theorem C01_vec_layout : forall (A : Type) (d : A) (t v : tensor A) (idx : list 
   shape v = [prod (shape t)] /\ get d v [ravel (shape t) idx] = get d t idx /\ data v = data t.
 Proof. exact @vec_layout. Qed.
 Print Assumptions C01_vec_layout.
+
+(* partial_unfold / partial_fold / partial_tensor_to_vec / partial_vec_to_tensor *)
+Theorem C01_partial_fold_unfold : forall (A : Type) (d : A) (t u : tensor A) (m sb se : nat) (rav : bool),
+  wf t -> partial_unfold d t m sb se rav = Ok u -> partial_fold d u m (shape t) sb se = Ok t.
+Proof. exact @partial_fold_unfold. Qed.
+Print Assumptions C01_partial_fold_unfold.
+
+Theorem C01_partial_unfold_succeeds : forall (A : Type) (d : A) (t : tensor A) (m sb se : nat) (rav : bool),
+  wf t -> 0 < prod (shape t) -> sb + m + se < ndim t -> exists u, partial_unfold d t m sb se rav = Ok u.
+Proof. exact @partial_unfold_succeeds. Qed.
+Print Assumptions C01_partial_unfold_succeeds.
+
+Theorem C01_partial_unfold_Permutation : forall (A : Type) (d : A) (t u : tensor A) (m sb se : nat) (rav : bool),
+  wf t -> partial_unfold d t m sb se rav = Ok u -> Permutation (data u) (data t).
+Proof. exact @partial_unfold_Permutation. Qed.
+Print Assumptions C01_partial_unfold_Permutation.
+
+Theorem C01_partial_vec_roundtrip : forall (A : Type) (d : A) (t u : tensor A) (sb se : nat),
+  wf t -> partial_tensor_to_vec d t sb se = Ok u -> partial_vec_to_tensor d u (shape t) sb se = Ok t.
+Proof. exact @partial_vec_roundtrip. Qed.
+Print Assumptions C01_partial_vec_roundtrip.
+
+(* matricize *)
+Theorem C01_matricize_layout : forall (A : Type) (d : A) (t u : tensor A) (rows cols idx : list nat),
+  wf t -> matricize d t rows (Some cols) = Ok u -> inb (shape t) idx ->
+  shape u = [prod (permute 0 rows (shape t)); prod (permute 0 cols (shape t))] /\
+  get d u [ravel (permute 0 rows (shape t)) (permute 0 rows idx); ravel (permute 0 cols (shape t)) (permute 0 cols idx)]
+  = get d t idx.
+Proof. exact @matricize_layout. Qed.
+Print Assumptions C01_matricize_layout.
+
+Theorem C01_matricize_Permutation : forall (A : Type) (d : A) (t u : tensor A) (rows : list nat) (cols : option (list nat)),
+  wf t -> matricize d t rows cols = Ok u -> Permutation (data u) (data t).
+Proof. exact @matricize_Permutation. Qed.
+Print Assumptions C01_matricize_Permutation.
+
+Theorem C01_matricize_default : forall (A : Type) (d : A) (t : tensor A) (rows : list nat),
+  matricize d t rows None = matricize d t rows (Some (complement (ndim t) rows)) /\
+  StronglySorted lt (complement (ndim t) rows) /\
+  (forall k, In k (complement (ndim t) rows) <-> k < ndim t /\ ~ In k rows).
+Proof. exact @matricize_default. Qed.
+Print Assumptions C01_matricize_default.
+
+Theorem C01_matricize_reject : forall (A : Type) (d : A) (t : tensor A) (rows cols : list nat),
+  ~ (length (rows ++ cols) = ndim t /\ NoDup (rows ++ cols) /\ (forall k, In k (rows ++ cols) -> k < ndim t)) ->
+  matricize d t rows (Some cols) = Err.
+Proof. exact @matricize_reject. Qed.
+Print Assumptions C01_matricize_reject.
+
+Theorem C01_transpose_Permutation : forall (A : Type) (d : A) (t : tensor A) (p : list nat),
+  wf t -> is_permb (ndim t) p = true -> Permutation (data (transpose d p t)) (data t).
+Proof. exact @transpose_Permutation. Qed.
+Print Assumptions C01_transpose_Permutation.
+
+Example C01_nonvacuous_partial :
+  let t := mk [2;3;2;2] (seq 0 24) in
+  wf t /\ 1 + 1 + 1 < ndim t /\
+  partial_unfold 0 t 1 1 1 false = Ok (mk [2;2;3;2] [0;1;4;5;8;9;2;3;6;7;10;11;12;13;16;17;20;21;14;15;18;19;22;23]) /\
+  matricize 0 t [2;0] (Some [3;1]) = Ok (mk [4;6] [0;4;8;1;5;9;12;16;20;13;17;21;2;6;10;3;7;11;14;18;22;15;19;23]).
+Proof. cbv zeta. unfold wf, ndim. cbn [shape data]. repeat split; try (vm_compute; reflexivity); vm_compute; auto with arith. Qed.
 
 (* non-vacuity: a 3x1x2x2 tensor meets the hypotheses and the model computes on it *)
 Example C01_nonvacuous :
